@@ -530,6 +530,7 @@ class Gen:
         missing = set(self.contracts) - self.used_contracts
         if missing:
             raise Undecided("contracts for functions that were not extracted: %s" % sorted(missing))
+        self._auto_consts()
         for sp in u.get("spec", []):
             self.emit("// ---- spec: %s" % sp)
             first = self.cur_line()
@@ -551,6 +552,40 @@ class Gen:
             json.dump(meta, f, indent=1)
         self.meta = meta
         return out
+
+    def _auto_consts(self):
+        """Constants the extracted code names but the unit does not list (an edit started using
+        one): pulled in from the unit's sources or src/constants.rs, transitively. A constant is
+        its value - nothing is trusted - so this only turns a would-be compile error into a check."""
+        spec_text = ""
+        for sp in self.unit.get("spec", []):
+            spec_text += open(os.path.join(self.udir, sp)).read()
+        if "c_auto" not in self.unit["sources"]:
+            self.unit["sources"]["c_auto"] = "src/constants.rs"
+        for _ in range(8):
+            text = "\n".join(self.lines)
+            mk = mask(text)
+            defined = set(re.findall(r"\bconst\s+([A-Z][A-Z0-9_]*)\b", mk + "\n" + mask(spec_text)))
+            used = set()
+            for ln, o in zip(mk.split("\n"), self.linemap):
+                if o and o.get("file"):
+                    used.update(re.findall(r"(?<![\w:])([A-Z][A-Z0-9_]{2,})\b(?!\s*::|\s*\()", ln))
+            todo = sorted(used - defined)
+            added = False
+            for name in todo:
+                for alias in list(self.unit["sources"]):
+                    try:
+                        s = self.src(alias)
+                        s.find_const(name)
+                    except (ParseError, Undecided):
+                        continue
+                    self.emit_const(alias, name)
+                    self.fidelity.append(dict(rule="auto-const", file=s.path, line=0, item=name, before="(not listed in the unit)",
+                                              after="const %s pulled in because the extracted code names it" % name, trusted="nothing"))
+                    added = True
+                    break
+            if not added:
+                return
 
     def emit_error_enum(self, alias):
         s = self.src(alias)
